@@ -844,8 +844,22 @@ type effect struct {
 }
 
 func (f *Frame) defaultCall(instr ssa.Instruction, sig *types.Signature, eff effect, args []*Val, setResult func(*Val)) {
+	cc := callCommonOf(instr)
 	for _, wi := range eff.writes {
 		if wi < len(args) {
+			if cc != nil && wi < len(cc.Args) {
+				if mi, ok := cc.Args[wi].(*ssa.MakeInterface); ok {
+					// a slice boxed into interface{} (sort.Slice): its elements are written
+					if _, isSlice := mi.X.Type().Underlying().(*types.Slice); isSlice {
+						f.havocElems(f.val(mi.X))
+						continue
+					}
+				}
+			}
+			if args[wi].K == VSlice {
+				f.havocElems(args[wi])
+				continue
+			}
 			f.havocPointee(args[wi], sig.Params().At(wi).Type())
 		}
 	}
@@ -857,6 +871,22 @@ func (f *Frame) defaultCall(instr ssa.Instruction, sig *types.Signature, eff eff
 }
 
 func (f *Frame) assumeAllocatedFresh(v *Val) { f.assumeAllocated(v) }
+
+// havocElems: the elements of a slice are overwritten with unknown values
+func (f *Frame) havocElems(v *Val) {
+	if v.K != VSlice {
+		return
+	}
+	key, ls := f.elemLeaves(v.T)
+	f.st = f.st.Clone()
+	for _, l := range ls {
+		k := key + l.path
+		s := ArrayS(IntS, ArrayS(IntS, l.sort))
+		cur := f.st.Get(k, s)
+		f.E.noteVars(cur)
+		f.st.Set(k, s, f.E.name(Store(cur, v.Base, f.fresh("hv$"+k, ArrayS(IntS, l.sort))), f.prefix+"hv$"+k))
+	}
+}
 
 func callName(instr ssa.Instruction) string {
 	if v, ok := instr.(ssa.Value); ok {
@@ -1315,14 +1345,16 @@ func (w *who) size() int {
 	return n
 }
 
+// addrRoot: the object whose own field is addressed.  A chain through an
+// embedded struct addresses an inner object, not the root object.
 func addrRoot(v ssa.Value) ssa.Value {
-	for {
-		if fa, ok := v.(*ssa.FieldAddr); ok {
-			v = fa.X
-			continue
+	if fa, ok := v.(*ssa.FieldAddr); ok {
+		if _, nested := fa.X.(*ssa.FieldAddr); nested {
+			return v // inner object: neither parameter nor fresh object itself
 		}
-		return v
+		return fa.X
 	}
+	return v
 }
 
 func paramIndex(fn *ssa.Function, v ssa.Value) int {
@@ -1446,6 +1478,19 @@ func (e *Enc) addLeafKeys(m map[string]*Sort, prefix string, t types.Type, kind 
 			e.Assumes["writes to values of unsupported type "+t.String()+" are not modelled"] = true
 		}
 	}()
+	if kind == AObj && innerStruct(t) && strings.HasPrefix(prefix, "F$") {
+		// a whole struct value stored at an object address: its fields, inner objects for embedded structs
+		st := t.Underlying().(*types.Struct)
+		for i := 0; i < st.NumFields(); i++ {
+			ft := st.Field(i).Type()
+			if innerStruct(ft) {
+				e.addLeafKeys(m, "F$"+typeKey(ft), ft, AObj)
+			} else {
+				e.addLeafKeys(m, "F$"+typeKey(t)+"$"+st.Field(i).Name(), ft, AObj)
+			}
+		}
+		return
+	}
 	for _, l := range leavesOf(t, e.Mode) {
 		switch kind {
 		case AObj:
@@ -1464,7 +1509,8 @@ func (e *Enc) staticAddrKey(v ssa.Value) (prefix string, kind int, ok bool) {
 	case *ssa.FieldAddr:
 		st := a.X.Type().Underlying().(*types.Pointer).Elem()
 		fld := st.Underlying().(*types.Struct).Field(a.Field)
-		if p, k, ok := e.staticAddrKey(a.X); ok && !(k == AObj && strings.HasPrefix(p, "F$"+typeKey(st)) && p == "F$"+typeKey(st)) {
+		// elements of slices of structs and opaque parents keep flattened paths
+		if p, k, ok := e.staticAddrKey(a.X); ok && (k == AElem || !strings.HasPrefix(p, "F$") || isOpaqueStruct(st)) {
 			return p + "$" + fld.Name(), k, true
 		}
 		return "F$" + typeKey(st) + "$" + fld.Name(), AObj, true
@@ -1509,6 +1555,9 @@ func (e *Enc) instrModKeys(in ssa.Instruction, m map[string]*Sort, includeLocal 
 	case *ssa.Store:
 		if p, k, ok := e.staticAddrKey(in.Addr); ok {
 			t := in.Addr.Type().Underlying().(*types.Pointer).Elem()
+			if k == AObj && innerStruct(t) && strings.HasPrefix(p, "F$") {
+				p = "F$" + typeKey(t)
+			}
 			e.addLeafKeys(m, p, t, k)
 		}
 	case *ssa.MapUpdate:
@@ -1659,6 +1708,14 @@ func (e *Enc) callModKeys(c *ssa.CallCommon, m map[string]*Sort) {
 			// writes through pointer arguments: the pointee keys
 			for _, wi := range eff.writes {
 				if wi < len(c.Args) {
+					at := c.Args[wi].Type()
+					if mi, ok := c.Args[wi].(*ssa.MakeInterface); ok {
+						at = mi.X.Type()
+					}
+					if sl, ok := at.Underlying().(*types.Slice); ok {
+						e.addLeafKeys(m, "M$"+typeKey(sl.Elem()), sl.Elem(), AElem)
+						continue
+					}
 					if p, k, ok := e.staticAddrKey(c.Args[wi]); ok {
 						if pt, ok := c.Args[wi].Type().Underlying().(*types.Pointer); ok {
 							e.addLeafKeys(m, p, pt.Elem(), k)
@@ -1818,6 +1875,10 @@ func (e *Enc) addFieldKeys(m map[string]*Sort, n *types.Named, field string) {
 	st := n.Underlying().(*types.Struct)
 	for i := 0; i < st.NumFields(); i++ {
 		if st.Field(i).Name() == field {
+			if ft := st.Field(i).Type(); innerStruct(ft) {
+				e.addLeafKeys(m, "F$"+typeKey(ft), ft, AObj)
+				continue
+			}
 			e.addLeafKeys(m, "F$"+typeKey(n)+"$"+field, st.Field(i).Type(), AObj)
 			// slices: contents too
 			if sl, ok := st.Field(i).Type().Underlying().(*types.Slice); ok {
